@@ -198,7 +198,7 @@ E*TRADE from Morgan Stanley
 This transaction is confirmed in accordance with the information provided on the Conditions and Disclosures page.
 Trade Date Settlement Date Quantity Price Settlement Amount
 {td} {sd} {qty} {price}
-Transaction Type: Sold
+Transaction Type: {act_word}
 Description: {company}
 Symbol / CUSIP / ISIN: {sym} / 040413106 / US0404131064Principal $1,000.00
 {comm_line}Supplemental
@@ -306,6 +306,17 @@ def gen_scenario(rng):
         price = Fraction(int(price * 1000), 1000) if era == "post" else Fraction(int(price * 100), 100)
         trades.append({"sym": rng.choice(syms), "td": td, "sd": td + datetime.timedelta(days=2), "qty": q, "price": price,
                        "comm": Fraction(495, 100), "fee": Fraction(rng.randint(1, 30), 100), "for": None})
+    # open-market purchases: confirmations that can never be part of a sell-to-cover
+    for pi in range(rng.choice([0, 0, 0, 1, 2])):
+        bref = rng.choice(benefits)
+        td = bref["date"] + datetime.timedelta(days=rng.choice([-3, 0, 1, 2, 4, 20]))
+        q = rng.choice([bref["sold"] or 4, rng.randint(1, 40)])
+        price = bref["fmv"] + Fraction(rng.randint(-300, 300), 100)
+        if price <= 0:
+            price = bref["fmv"]
+        price = Fraction(int(price * 1000), 1000) if era == "post" else Fraction(int(price * 100), 100)
+        trades.append({"sym": bref["sym"], "td": td, "sd": td + datetime.timedelta(days=2), "qty": q, "price": price,
+                       "comm": Fraction(495, 100), "fee": Fraction(rng.randint(1, 30), 100), "for": None, "act": "Buy"})
     manual = [t for t in trades if t["for"] is None]
     if manual and rng.random() < 0.25:
         trades.append(dict(rng.choice(manual)))       # the same order filled twice: two confirmations of identical content
@@ -374,7 +385,8 @@ def render_files(rng, sc):
         for di, (td, ts) in enumerate(sorted(by_day.items())):
             body = PRE_HEAD
             for t in ts:
-                l1 = "%s %s 6 1 %s SELL %d $%s Stock Plan PRINCIPAL $%s\n" % (td.strftime("%m/%d/%y"), t["sd"].strftime("%m/%d/%y"), t["sym"], t["qty"],
+                l1 = "%s %s 6 1 %s %s %d $%s Stock Plan PRINCIPAL $%s\n" % (td.strftime("%m/%d/%y"), t["sd"].strftime("%m/%d/%y"), t["sym"],
+                                                                             "BUY" if t.get("act") == "Buy" else "SELL", t["qty"],
                                                                              fee2(t["price"]), money2(t["price"] * t["qty"]))
                 l2 = "%s SYSTEMS INC COM" % t["sym"]
                 if t["comm"] is not None:
@@ -391,6 +403,7 @@ def render_files(rng, sc):
     else:
         for ti, t in enumerate(sc["trades"]):
             text = POST_TMPL.format(td=t["td"].strftime("%m/%d/%Y"), sd=t["sd"].strftime("%m/%d/%Y"), qty=t["qty"], price=price3(t["price"]),
+                                    act_word="Bought" if t.get("act") == "Buy" else "Sold",
                                     company=COMPANY[t["sym"]], sym=t["sym"],
                                     comm_line="Commission $%s\n" % fee2(t["comm"]) if t["comm"] is not None else "",
                                     fee_line="Transaction Fee $%s\n" % fee2(t["fee"]) if t["fee"] is not None else "")
@@ -437,7 +450,8 @@ def feasible_assignment(benefits, trades):
         if bi == len(todo):
             return True
         b = todo[bi]
-        cands = [i for i in avail if trades[i]["sym"] == b["sym"] and b["date"] <= trades[i]["td"] <= b["date"] + datetime.timedelta(days=5)]
+        cands = [i for i in avail if trades[i]["sym"] == b["sym"] and trades[i].get("act", "Sell") == "Sell"
+                 and b["date"] <= trades[i]["td"] <= b["date"] + datetime.timedelta(days=5)]
         for n in range(1, len(cands) + 1):
             for combo in itertools.combinations(cands, n):
                 if sum(trades[i]["qty"] for i in combo) == b["sold"]:
@@ -467,7 +481,8 @@ def judge(sc, res):
     sds = [r["settlement date"] for r in rows]
     if sds != sorted(sds):
         return {"what": "rows are not ordered by settlement date", "dates": sds}
-    buys = [r for r in rows if r["action"] == "Buy"]
+    is_manual = lambda r: r["memo"].strip().endswith("(manual trade)")
+    buys = [r for r in rows if r["action"] == "Buy" and not is_manual(r)]
     sells = [r for r in rows if r["action"] == "Sell"]
     # one purchase per benefit
     want_buys = sorted((b["sym"], b["date"].isoformat(), Fraction(b["released"]), b["fmv"]) for b in benefits)
@@ -477,13 +492,13 @@ def judge(sc, res):
                 "tool": [[str(x) for x in t] for t in got_buys], "expected": [[str(x) for x in t] for t in want_buys]}
     if any(r["currency"] != "USD" for r in rows):
         return {"what": "row not in USD"}
-    manual = [r for r in sells if r["memo"].strip().endswith("(manual trade)")]
-    stc = [r for r in sells if not r["memo"].strip().endswith("(manual trade)")]
+    manual = [r for r in rows if is_manual(r)]
+    stc = [r for r in sells if not is_manual(r)]
     avail = list(range(len(trades)))
     for r in manual:
-        key = (r["security"], r["trade date"], r["settlement date"], Fraction(r["shares"]), Fraction(r["amount/share"]), Fraction(r["commission"]))
-        hit = next((i for i in avail if (trades[i]["sym"], trades[i]["td"].isoformat(), trades[i]["sd"].isoformat(), Fraction(trades[i]["qty"]), trades[i]["price"],
-                                          (trades[i]["comm"] or 0) + (trades[i]["fee"] or 0)) == key), None)
+        key = (r["action"], r["security"], r["trade date"], r["settlement date"], Fraction(r["shares"]), Fraction(r["amount/share"]), Fraction(r["commission"]))
+        hit = next((i for i in avail if (trades[i].get("act", "Sell"), trades[i]["sym"], trades[i]["td"].isoformat(), trades[i]["sd"].isoformat(), Fraction(trades[i]["qty"]),
+                                          trades[i]["price"], (trades[i]["comm"] or 0) + (trades[i]["fee"] or 0)) == key), None)
         if hit is None:
             return {"what": "a manual trade row does not correspond to an unconsumed trade confirmation (own price, quantity, fees)", "row": r}
         avail.remove(hit)
@@ -491,8 +506,13 @@ def judge(sc, res):
     todo = [b for b in benefits if b["sold"]]
     if len(stc) != len(todo):
         return {"what": "number of sell-to-cover sales differs from the number of benefits with sold shares", "tool": len(stc), "expected": len(todo)}
+    if any(trades[i].get("act") == "Buy" for i in avail):
+        return {"what": "a purchase confirmation does not appear in the output as a manual trade",
+                "missing": [{k: str(v) for k, v in trades[i].items()} for i in avail if trades[i].get("act") == "Buy"]}
     total_tc = {}
     for t in trades:
+        if t.get("act", "Sell") != "Sell":
+            continue
         total_tc[t["sym"]] = total_tc.get(t["sym"], 0) + t["qty"]
     total_out = {}
     for r in sells:
@@ -513,7 +533,8 @@ def judge(sc, res):
                 continue
             if Fraction(r["amount/share"]) != b["sale_price"] or Fraction(r["commission"]) != b["fee"]:
                 continue
-            cands = [i for i in avail_ if trades[i]["sym"] == b["sym"] and b["date"] <= trades[i]["td"] <= b["date"] + datetime.timedelta(days=5)]
+            cands = [i for i in avail_ if trades[i]["sym"] == b["sym"] and trades[i].get("act", "Sell") == "Sell"
+                     and b["date"] <= trades[i]["td"] <= b["date"] + datetime.timedelta(days=5)]
             for n in range(1, len(cands) + 1):
                 for combo in itertools.combinations(cands, n):
                     if sum(trades[i]["qty"] for i in combo) != b["sold"]:
